@@ -92,6 +92,24 @@ theorem prepOrders_lastFor {main : List (Key × Ord)} {m : List (Key × List Nat
           rw [ih']
           cases (lookup n r).bind (fun us => (lookup n main).map (fun o => fillMods o us)) <;> rfl
 
+theorem prepOrders_keys {main : List (Key × Ord)} {m : List (Key × List Nat)} {l : List (Key × List OMod)}
+    (h : prepOrders main m = .ok l) : l.map (·.1) = m.map (·.1) := by
+  induction m generalizing l with
+  | nil => simp [prepOrders] at h; subst h; rfl
+  | cons p r ih =>
+    obtain ⟨k, us⟩ := p
+    simp only [prepOrders] at h
+    cases hl : lookup k main with
+    | none => simp [hl] at h
+    | some o =>
+      simp only [hl] at h
+      cases hr : prepOrders main r with
+      | error e => simp [hr] at h
+      | ok l' =>
+        simp only [hr] at h
+        injection h with h; subst h
+        simp [ih hr]
+
 theorem prepOrders_lookup_main {main : List (Key × Ord)} {m : List (Key × List Nat)} {l : List (Key × List OMod)}
     (h : prepOrders main m = .ok l) {n : Key} {us : List Nat} (hm : lookup n m = some us) :
     ∃ o, lookup n main = some o ∧ (n, fillMods o us) ∈ l := by
